@@ -46,9 +46,11 @@ func (s *Session) ExecQuery(q string) error {
 		fmt.Printf("created database %s\n\r", stmt.Name)
 		return nil
 	case sql.UseStatement:
-		if s.RelationService != nil && strings.EqualFold(stmt.DBName, s.CurDB) {
-			// already selected: opening it a second time would read a stale
-			// copy of the file header next to the live one
+		if s.RelationService != nil && strings.ToLower(stmt.DBName) == strings.ToLower(s.CurDB) {
+			// already selected (names are compared the way the storage layer
+			// maps them to directories, by their lower-case form): opening it
+			// a second time would read a stale copy of the file header next
+			// to the live one
 			fmt.Printf("selected database %s\n\r", stmt.DBName)
 			return nil
 		}
